@@ -24,6 +24,8 @@ type c01Case struct {
 	// must not depend on what else the process is doing (the schedule is not owned by the harness: a busy case is
 	// judged exactly like a quiet one, it merely gives interference a chance to show)
 	Busy bool `json:"busy,omitempty"`
+	// Route: which entry point produces the report (see validateVia)
+	Route int `json:"route,omitempty"`
 }
 
 const busyProfile = "profile: busy\nprefixes:\n  ex: \"http://ex.org/v#\"\nviolation:\n- b\nvalidations:\n  b:\n    targetClass: ex.Busy\n    propertyConstraints:\n      ex.e0 / ex.p0:\n        minCount: 1\n      ex.e1:\n        nested:\n          propertyConstraints:\n            ex.p1:\n              pattern: x\n"
@@ -221,6 +223,7 @@ func genC01(t *rapid.T) c01Case {
 	c.ProfileText = c.Profile.ToY().Print(m.YOpts{})
 	c.DataText = c.Graph.JSONLD(m.LDOpts{})
 	c.Busy = rapid.IntRange(0, 7).Draw(t, "busy") == 0
+	c.Route = rapid.SampledFrom([]int{0, 0, 1, 2, 3}).Draw(t, "route")
 	return c
 }
 
@@ -248,6 +251,7 @@ func genC01Wide(t *rapid.T) c01Case {
 	c.ProfileText = c.Profile.ToY().Print(m.YOpts{})
 	c.DataText = c.Graph.JSONLD(m.LDOpts{})
 	c.Busy = rapid.IntRange(0, 7).Draw(t, "busy") == 0
+	c.Route = rapid.SampledFrom([]int{0, 0, 1, 2, 3}).Draw(t, "route")
 	return c
 }
 
@@ -348,7 +352,7 @@ func decideC01(c c01Case) ev.Verdict {
 		}
 		whileBusy(3, func() {
 			for i := 0; i < reps; i++ {
-				res = validateFixed(c.ProfileText, c.DataText)
+				res = validateVia(c.Route, c.ProfileText, c.DataText)
 				if i+1 < reps {
 					if v := judgeC01(c, res); !v.OK {
 						break
@@ -357,7 +361,7 @@ func decideC01(c c01Case) ev.Verdict {
 			}
 		})
 	} else {
-		res = validateFixed(c.ProfileText, c.DataText)
+		res = validateVia(c.Route, c.ProfileText, c.DataText)
 	}
 	return judgeC01(c, res)
 }
@@ -414,7 +418,7 @@ func judgeC01(c c01Case, res call) ev.Verdict {
 	if len(c.Pairs) > 0 {
 		v.Labels = append(v.Labels, "has-rewritten-twin")
 	}
-	v.Labels = append(v.Labels, "mode:"+c.Mode)
+	v.Labels = append(v.Labels, "mode:"+c.Mode, "route:"+routeNames[c.Route%4])
 	if c.Busy {
 		v.Labels = append(v.Labels, "validated-while-other-goroutines-compile")
 	}
